@@ -111,3 +111,4 @@ def extra_checks(tier, seed):
                          '(the core trusts the buffer to be MTU bytes long)' % f)
         found.append({'file': f, 'malloc_mtu': bool(a), 'recvfrom_mtu': bool(b), 'parseFrame_on_buffer': bool(c)})
     return {'failures': fails, 'found_input': False, 'premise': found}
+EXPLORE = dict(ops=('frame', 'classify', 'flow', 'esp32', 'tick', 'adv'), mtu=True)
